@@ -16,8 +16,8 @@ pub const ENTS: [(&str, &str); 11] = [("U", "u0"), ("U", "u1"), ("U", "u2"), ("G
 pub const N_NONACT: u8 = 8;
 
 /// adversarial policy-id spellings
-pub const IDS: [&str; 14] = [
-    "p", "q", "policy0", "policy1", "policy2", "", "ポリシー", "a\"b", "x y", "0", "policy00", "JSON policy",
+pub const IDS: [&str; 19] = [
+    "p", "q", "policy0", "policy1", "policy2", "", "ポリシー", "a\"b", "x y", "0", "policy00", "JSON policy", "P", "p ", " p", "Policy0", "policy10",
     "long-long-long-long-long-long-long-long-long-long-long-long-long-long-long-long-long-long-long-long-long-long-long-long-long-long-long-long-long-long-long-long-long-long-long-long-long-long-long-long-id",
     "\\u{0}",
 ];
@@ -867,8 +867,43 @@ impl World for Authz {
         let mut statics: Vec<u8> = vec![];
         let mut templates: Vec<(u8, (bool, bool))> = vec![];
         let mut links: Vec<u8> = vec![];
+        // which template each link was created from (for the churn pattern)
+        let mut link_of: Vec<(u8, u8)> = vec![];
         let w: Vec<u32> = if flood { vec![30, 2, 3, 1, 1, 1, 2, 1, 12, 2, 2] } else { vec![16, 4, 7, 1, 2, 1, 3, 1, 14, 3, 2] };
         while ops.len() < nops {
+            if rng.pct(4) && !templates.is_empty() {
+                // churn: retire a template (unlink its links, remove it), define another template
+                // under the same id and link it again under a previously used link id
+                let (tid, _) = *rng.pick(&templates);
+                let old_links: Vec<u8> = link_of.iter().filter(|(_, t)| *t == tid).map(|(l, _)| *l).collect();
+                for l in &old_links {
+                    ops.push(Op::Unlink { id: *l });
+                }
+                ops.push(Op::RemoveTemplate { id: tid });
+                let pol = gen_pol(&mut rng, true);
+                let (sp, sr) = pol.slots();
+                templates.retain(|t| t.0 != tid);
+                templates.push((tid, (sp, sr)));
+                ops.push(Op::AddTemplate { id: tid, pol });
+                link_of.retain(|(_, t)| *t != tid);
+                links.retain(|l| !old_links.contains(l));
+                let lid = old_links.first().copied().unwrap_or(rng.below(idpool) as u8);
+                let p = if sp { Some(rng.below(N_NONACT as usize) as u8) } else { None };
+                let r = if sr { Some(rng.below(N_NONACT as usize) as u8) } else { None };
+                ops.push(Op::Link { tid, id: lid, p, r });
+                links.push(lid);
+                link_of.push((lid, tid));
+                ops.push(Op::Auth { req: gen_req(&mut rng) });
+                continue;
+            }
+            if rng.pct(3) && !statics.is_empty() {
+                // churn: a static policy is removed and another one is added under the same id
+                let id = *rng.pick(&statics);
+                ops.push(Op::RemoveStatic { id });
+                ops.push(Op::AddStatic { id, pol: gen_pol(&mut rng, false) });
+                ops.push(Op::Auth { req: gen_req(&mut rng) });
+                continue;
+            }
             match rng.weighted(&w) {
                 0 => {
                     let mut id = rng.below(idpool) as u8;
@@ -903,6 +938,7 @@ impl World for Authz {
                         let r = if sr == exact { Some(rng.below(N_NONACT as usize) as u8) } else { None };
                         if exact && !statics.contains(&id) && !links.contains(&id) && !templates.iter().any(|t| t.0 == id) {
                             links.push(id);
+                            link_of.push((id, tid));
                         }
                         ops.push(Op::Link { tid, id, p, r });
                     } else {
